@@ -31,7 +31,11 @@ def analyse(prop, repo_root, tier='quick'):
     mod = importlib.import_module('sa.props.%s' % prop)
     repo = Repo(repo_root)
     rep = Report(prop, tier, 0, repo_root, None, write=False)
-    mod.check(repo, rep, tier)
+    try:
+        mod.check(repo, rep, tier)
+    except AnalysisError:
+        if not rep.new_violations():
+            raise
     return rep
 
 
@@ -77,6 +81,8 @@ def run_variant(args):
         for prop in v['props']:
             try:
                 rep = analyse(prop, d)
+                if rep.deferred and not rep.new_violations():
+                    errors.append('%s: ANALYSIS-ERROR %s' % (prop, '; '.join(rep.deferred)))
                 known = {(e['rule'], e['construct']) for e in rep._known() if e.get('status') == 'open'}
                 for viol in rep.violations:
                     if (viol['rule'], viol['construct']) in known:
